@@ -520,7 +520,7 @@ def build_cases(tier, seed):
     q = tier == "quick"
     cases = []
     # (b)+(c) value trees: to_json text vs model dump, round trip vs specification
-    n_trees = 2500 if q else 60000
+    n_trees = 2500 if q else 120000
     for i in range(n_trees):
         t = gen_tree(rnd, rnd.choice([0, 1, 2, 3, 4, 5]), rnd.choice([1, 2, 3, 4, 5]))
         cases.append(("tree", "rt " + " ".join(tree_tokens(t))))
@@ -531,7 +531,7 @@ def build_cases(tier, seed):
         cases.append(("tree-int", "rt I%d" % z))
         cases.append(("tree-int", "rt V2 I%d I%d" % (z, -z if z != I64MIN else z)))
     # doubles: implementation-only tolerance test (partial)
-    for i in range(300 if q else 10000):
+    for i in range(300 if q else 20000):
         t = gen_tree(rnd, rnd.choice([0, 1, 2, 3]), 3, floats=True)
         cases.append(("tree-float", "rt " + " ".join(tree_tokens(t))))
     for x in FLOAT_POOL:
@@ -539,7 +539,7 @@ def build_cases(tier, seed):
     # (a) texts
     for kind, b in fixed_texts(tier):
         cases.append((kind, "from " + hx(b)))
-    nv, nm, nr = (600, 2500, 800) if q else (30000, 150000, 40000)
+    nv, nm, nr = (600, 2500, 800) if q else (60000, 300000, 80000)
     for kind, b in gen_texts(rnd, nv, nm, nr):
         cases.append((kind, "from " + hx(b)))
     # (d) deep nesting
